@@ -62,7 +62,7 @@ def gen_invalid(draw, G):
         return None
     s = draw(st.sampled_from(spaces))
     p = list(s.path)
-    k = draw(st.integers(0, 26))
+    k = draw(st.integers(0, 30))
     bad = draw(st.sampled_from(BAD_NAMES))
     if k == 0:
         return ["new_space_raw", draw(st.sampled_from([[], p])), bad, None, None]
@@ -162,7 +162,25 @@ def gen_invalid(draw, G):
         # copying a space into itself or into one of its descendants
         inside = [t for t in spaces if t.path[:len(s.path)] == s.path]
         return ["copy_space", p, list(draw(st.sampled_from(inside)).path), "Cpy"]
-    if k >= 25:
+    if k in (27, 28):
+        # a space deriving reference rz from its second base; the first base is then given a relative reference of that
+        # name to an unrelated space, which the sub cannot resolve: refused before anything changes
+        t = "%d" % draw(st.integers(0, 99))
+        return ["_seq", [["new_space_raw", [], "Xa" + t, None, None], ["new_space_raw", [], "Ya" + t, None, None],
+                         ["new_space_raw", [], "Wa" + t, None, None], ["set_ref", ["Ya" + t], "rz", ["v", 3], None],
+                         ["new_space_raw", [], "Sa" + t, [["Xa" + t], ["Ya" + t]], None],
+                         ["set_ref", ["Xa" + t], "rz", ["o", ["Wa" + t]], "relative"]]]
+    if k in (29, 30):
+        # None is allowed at an enclosing level and explicitly not for this cells, which holds an assigned value:
+        # assigning None is refused before the value is touched
+        cs = [(n, c) for n, c in sorted(s.cells.items()) if c.cached]
+        if cs:
+            n, c = draw(st.sampled_from(cs))
+            key = repr(tuple([0] * len(c.params)))
+            return ["_seq", [["set_allow_none", draw(st.sampled_from([[], p[:1]])), None, True],
+                             ["set_allow_none", p, n, False], ["set_value_raw", p, n, key, "7"],
+                             ["set_value_raw", p, n, key, "None"]]]
+    if 25 <= k <= 26:
         # as below, but the space that is given the unresolvable base already has sub spaces (a diamond when the
         # model has one): the rejection has to undo a derivation that ran through all of them
         sibs = [t for t in spaces if t.path[:-1] == s.path[:-1] and t is not s]
